@@ -468,6 +468,7 @@ class C04Check(StatCheck):
         row_trials = Counter()        # slot label -> trials
         pair_counts = Counter()
         pair_trials = 0
+        ipair = Counter()             # (row of inner sample 0, row of inner sample 1) in the first chain step
         contrib_sum = None
         contrib_sq = None
         n_contrib = 0
@@ -542,6 +543,8 @@ class C04Check(StatCheck):
                             lab = "row:pfi:%s" % f
                             row_counts[(lab, c04_tag(inp[f]))] += 1
                             row_trials[lab] += 1
+                    if n >= 2:
+                        ipair[(c04_tag(log[1][names[0]]), c04_tag(log[2][names[0]]))] += 1
                     continue
                 order = []
                 known = set()
@@ -577,6 +580,8 @@ class C04Check(StatCheck):
                                 row_trials[lab] += 1
                             if j == 0 and len(imputed) >= 2:
                                 pair_counts[(tags[imputed[0]], tags[imputed[1]], imputed[0], imputed[1])] += 1
+                    if ok and j == 0 and n >= 2 and imputed:
+                        ipair[(infos[0][imputed[0]], infos[1][imputed[0]])] += 1
                     if not ok:
                         break
                 if not ok:
@@ -632,6 +637,7 @@ class C04Check(StatCheck):
                             # background row: the row other than the explained one that any feature points to
                             any_other = False
                             revealed = None
+                            bg_rows = []
                             for inp in inputs:
                                 tags = {c04_tag(inp[f]) for f in names}
                                 other = tags - {i}
@@ -639,6 +645,7 @@ class C04Check(StatCheck):
                                     det = ("joint-rows-mixed", "one model input mixes rows %r" % sorted(tags))
                                     break
                                 r_bg = next(iter(other)) if other else i
+                                bg_rows.append(r_bg)
                                 if j < d - 1:
                                     lab = "row:%s:pos%d" % (ex, i)
                                     row_counts[(lab, r_bg)] += 1
@@ -649,6 +656,8 @@ class C04Check(StatCheck):
                                     revealed = same if revealed is None else (revealed & same)
                             if det:
                                 break
+                            if j == 0 and n >= 2 and d >= 2 and i == 0 and len(bg_rows) >= 2:
+                                ipair[(bg_rows[0], bg_rows[1])] += 1
                             if order_ok and j < d - 1:
                                 if not any_other:
                                     order_ok = False
@@ -695,6 +704,8 @@ class C04Check(StatCheck):
                                         row_trials[lab] += 1
                                     if j == 0 and len(imputed) >= 2 and i == 0:
                                         pair_counts[(tags[imputed[0]], tags[imputed[1]], imputed[0], imputed[1])] += 1
+                            if not det and j == 0 and i == 0 and n >= 2 and imputed:
+                                ipair[(infos[0][imputed[0]], infos[1][imputed[0]])] += 1
                             if det:
                                 break
                     if det:
@@ -732,6 +743,12 @@ class C04Check(StatCheck):
                     for rb in range(m):
                         fam.add("pair:%s:%s,%s:r%d,r%d" % (ex, fa, fb, ra, rb), pair_counts[(ra, rb, fa, fb)], tot,
                                 1.0 / (m * m))
+        if ipair:
+            # independence of the n inner samples: (row of sample 0, row of sample 1) is uniform over m x m
+            tot = sum(ipair.values())
+            for ra in range(m):
+                for rb in range(m):
+                    fam.add("innerpair:%s:r%d,r%d" % (ex, ra, rb), ipair[(ra, rb)], tot, 1.0 / (m * m))
         # ---- Monte-Carlo mean vs exhaustive enumeration --------------------------------------------------
         extra_det = None
         if expected is not None and n_contrib > 1000:
